@@ -864,6 +864,7 @@ class Interp(object):
             st = LoopState(self, env, SInt(k))
             st.k0 = SInt(k0)
             st.x = x
+            st.base = base
             st.trace_start = len(self.trace)
             try:
                 self.exec_block(node.body, env)
